@@ -73,13 +73,15 @@ Definition spec_step (t : list (Z * want)) (o : op) : list (Z * want) :=
   | Reopen _ => t
   end.
 
-(** well-formed histories: ids are 64-bit, descriptors are among the [nfd] slots, and a coroutine
-    starts a wait only when, by the specification, it is not already waiting. *)
+(** well-formed histories: ids are 64-bit, descriptors are among the slots [1 .. nfd-1], and a
+    coroutine starts a wait only when, by the specification, it is not already waiting. Descriptor 0
+    exists (it is open) but is never a slot: it is the descriptor the runtime falls back to when an
+    event's token is unknown to [TOKEN_FD]. *)
 Definition wf_op (nfd : Z) (t : list (Z * want)) (o : op) : bool :=
   match o with
   | Wait _ c fd | WaitT _ c fd =>
-      in_u64 c && (0 <=? fd) && (fd <? nfd) && match aget c t with None => true | Some _ => false end
-  | Ready _ fd | Del fd | DelDir _ fd | Close fd | Reopen fd => (0 <=? fd) && (fd <? nfd)
+      in_u64 c && (1 <=? fd) && (fd <? nfd) && match aget c t with None => true | Some _ => false end
+  | Ready _ fd | Del fd | DelDir _ fd | Close fd | Reopen fd => (1 <=? fd) && (fd <? nfd)
   end.
 
 Fixpoint wf_from (nfd : Z) (t : list (Z * want)) (ops : list op) : bool :=
